@@ -225,28 +225,43 @@ func (a *Affiliation) computeTriggersForCastingSites(pass *analysishelper.Enhanc
 					}
 
 				case *ast.CompositeLit:
-					switch nodeType := node.Type.(type) {
-					case *ast.ArrayType:
-						// A slice (or array) declared of type interface, and initialized with a struct
-						// e.g., _ = []I{&S{}}
-						// TODO: currently, nested composite literal for ArrayType is not supported (e.g., _ = [][]I{{&A1{}}}).
-						//  Tracked in issue #46.
-						lhsType := pass.TypesInfo.TypeOf(nodeType.Elt)
-						for _, elt := range node.Elts {
-							appendTypeToTypeTriggers(lhsType, pass.TypesInfo.TypeOf(elt))
-						}
-					case *ast.MapType:
-						// Key, value, or both of a map declared of type interface, and initialized with a struct
-						// e.g., _ = map[int]I{0: &S{}}
-						keyType := pass.TypesInfo.TypeOf(nodeType.Key)
-						valueType := pass.TypesInfo.TypeOf(nodeType.Value)
+					// The kind of the literal is determined by its type (rather than by the spelling of the type
+					// in the AST), such that the elements are also found if the type is a defined slice, array, or
+					// map type (e.g., `type IS []I`, _ = IS{&S{}}), a qualified or instantiated type (e.g.,
+					// pkg.T{...}, G[int]{...}), or is elided (e.g., the inner literals of `[]T{{...}}` and
+					// `[]*T{{...}}`, the latter being of type `*T`).
+					litType := pass.TypesInfo.TypeOf(node)
+					if litType == nil {
+						return true
+					}
+					litType = typeshelper.UnwrapPtr(types.Unalias(litType))
+
+					// A slice (or array) declared of type interface, and initialized with a struct
+					// e.g., _ = []I{&S{}}, or with indices, _ = []I{0: &S{}}
+					appendElemTriggers := func(lhsType types.Type) {
 						for _, elt := range node.Elts {
 							if kv, ok := elt.(*ast.KeyValueExpr); ok {
-								appendTypeToTypeTriggers(keyType, pass.TypesInfo.TypeOf(kv.Key))
-								appendTypeToTypeTriggers(valueType, pass.TypesInfo.TypeOf(kv.Value))
+								elt = kv.Value
+							}
+							appendTypeToTypeTriggers(lhsType, pass.TypesInfo.TypeOf(elt))
+						}
+					}
+
+					switch t := litType.Underlying().(type) {
+					case *types.Slice:
+						appendElemTriggers(t.Elem())
+					case *types.Array:
+						appendElemTriggers(t.Elem())
+					case *types.Map:
+						// Key, value, or both of a map declared of type interface, and initialized with a struct
+						// e.g., _ = map[int]I{0: &S{}}
+						for _, elt := range node.Elts {
+							if kv, ok := elt.(*ast.KeyValueExpr); ok {
+								appendTypeToTypeTriggers(t.Key(), pass.TypesInfo.TypeOf(kv.Key))
+								appendTypeToTypeTriggers(t.Elem(), pass.TypesInfo.TypeOf(kv.Value))
 							}
 						}
-					case *ast.Ident:
+					case *types.Struct:
 						// A struct field (embedded or explicit) declared of type interface, and initialized with a struct
 						// e.g., var i I = S{t:&T{}}, where `type S struct { t J }`. (Here I and J are interfaces,
 						// and S and T are structs implementing them, respectively.)
@@ -257,12 +272,10 @@ func (a *Affiliation) computeTriggersForCastingSites(pass *analysishelper.Enhanc
 								// In this case the initialization is key-value based. E.g. s = &S{t: &T{}}
 								lhsType = pass.TypesInfo.TypeOf(kv.Key)
 								rhsType = pass.TypesInfo.TypeOf(kv.Value)
-							} else {
+							} else if i < t.NumFields() {
 								// In this case the initialization is serial. E.g. s = &S{&T{}}
-								if sObj := typeshelper.AsDeeplyStruct(pass.TypesInfo.TypeOf(node)); sObj != nil {
-									lhsType = sObj.Field(i).Type()
-									rhsType = pass.TypesInfo.TypeOf(elt)
-								}
+								lhsType = t.Field(i).Type()
+								rhsType = pass.TypesInfo.TypeOf(elt)
 							}
 							if lhsType != nil && rhsType != nil {
 								appendTypeToTypeTriggers(lhsType, rhsType)
